@@ -72,7 +72,7 @@ Proof.
   destruct (f64_is_finite (f64_of_bits (s_offset (sample_of_buf buf)))) eqn:E4; cbn [negb].
   2:{ split; [discriminate| intros (_ & -> & _ & _ & H); congruence]. }
   split.
-  - intros H; inversion H; subst. repeat split; try lia. exact E4.
+  - intros H; inversion H; subst. repeat split; try lia; try exact E4.
   - intros (_ & -> & _). reflexivity.
 Qed.
 
